@@ -360,12 +360,18 @@ func (s *BooleanSearcher) Advance(ctx *search.SearchContext, ID index.IndexInter
 		}
 
 		if s.shouldSearcher != nil {
-			if s.currShould != nil {
-				ctx.DocumentMatchPool.Put(s.currShould)
-			}
-			s.currShould, err = s.shouldSearcher.Advance(ctx, ID)
-			if err != nil {
-				return nil, err
+			// When there is a must clause the should cursor isn't tracked by
+			// currentID either: it may already be at or beyond the requested ID.
+			// Moving it then would drop the match it is holding, and a compound
+			// should searcher cannot seek back to it.
+			if s.currShould == nil || s.currShould.IndexInternalID.Compare(ID) < 0 {
+				if s.currShould != nil {
+					ctx.DocumentMatchPool.Put(s.currShould)
+				}
+				s.currShould, err = s.shouldSearcher.Advance(ctx, ID)
+				if err != nil {
+					return nil, err
+				}
 			}
 		}
 
